@@ -11,7 +11,12 @@ type lazySubContext struct {
 }
 
 func (s *lazySubContext) GetMatch(idx int) string {
-	if idx < 0 || idx >= len(s.args) {
+	if idx < 0 {
+		// not an argument: let the caller's context answer (it has no negative group either),
+		// so that the look-up is still seen, eg. the one {time live} uses to stay dynamic
+		return s.sub.GetMatch(idx)
+	}
+	if idx >= len(s.args) {
 		return ""
 	}
 	return s.args[idx](s.sub)
